@@ -9,7 +9,12 @@ over the supplied / default action space of the scalar from `get_rewards`;
 `calculate_SARSA` = the closed formula clip(Q + a (r + l Q' - Q), 0, 1), complement
 coded, for every transition but the last (Q = 0 before training, `r` for a single
 transition), and its rows pass the reward module's validator; TD-FALCON's
-`partial_fit` = FusionART `partial_fit` on the joined SARSA rows.
+`partial_fit` = FusionART `partial_fit` on the joined SARSA rows.  alpha / lambda in the
+formula are the values the model REPORTS (`est.td_alpha`, `est.td_lambda`) at the time of
+the call: half of the TD-FALCON cases follow a schedule that re-assigns one or both by plain
+attribute assignment before an episode / before the final query (a learning-rate schedule),
+and the targets of every training episode (not only of the final fresh trajectory) are
+compared with the closed formula for the values reported at that moment.
 
 Tie: `artdrv fusion hist` on the joined rows (model `fusionKernel`), `falcon rew`,
 `falcon act`, `falcon sarsa` (models `getRewards`, `getAction`, `calcSarsa`)."""
@@ -26,7 +31,8 @@ from ..impl import make, quiet, exc_enum
 from .e2e import cmp_W, close
 from .C10 import chans_str, snap_fusion, compare_state, same_W, fusion_spec, ActLog, ambiguous_rows
 
-RULE = ("cases = (FALCON or TD_FALCON, channel widths, gammas, Fuzzy hyper-parameters, td_alpha, td_lambda, earlier "
+RULE = ("cases = (FALCON or TD_FALCON, channel widths, gammas, Fuzzy hyper-parameters, td_alpha, td_lambda, schedule of "
+        "td_alpha / td_lambda re-assignments between episodes, earlier "
         "episodes, trajectory, action space, optimality); a case is non-trivial when the trajectory has >= 2 "
         "transitions and the model >= 2 categories; distinct by hash of the whole tuple")
 
@@ -99,6 +105,47 @@ def sarsa_closed(al, la, Q, rdcc):
         out.append([t, 1 - t])
     return out
 
+def reassign_td(est, sr, when, sched):
+    """a step of a hyper-parameter schedule: plain attribute assignment of td_alpha and/or td_lambda on the live
+    estimator (drawn from its own generator so the other draws of the case are unchanged); records what was assigned"""
+    which = sr.choice(["alpha", "lambda", "both", "both"])
+    step = {"before": when}
+    if which in ("alpha", "both"):
+        est.td_alpha = sr.choice([v for v in TDV if v != est.td_alpha])
+        step["td_alpha"] = est.td_alpha
+    if which in ("lambda", "both"):
+        est.td_lambda = sr.choice([v for v in TDV if v != est.td_lambda])
+        step["td_lambda"] = est.td_lambda
+    sched.append(step)
+    return which
+
+
+def sarsa_expected(est, trained, S, A, R, ssr):
+    """the property's right-hand side from public quantities only: alpha, lambda = what the model reports now,
+    Q = get_rewards (0 before training); returns (expected target rows as Fractions, alpha, lambda, Q)"""
+    al, la = float(est.td_alpha), float(est.td_lambda)
+    L = len(S)
+    if L > 1:
+        if trained:
+            with quiet():
+                Q = np.asarray(est.get_rewards(S, A), dtype=float).reshape(-1)
+        else:
+            Q = np.zeros(L)
+        rdcc = (R[:, 0] + (1 - R[:, 1])) / 2
+        return sarsa_closed(al, la, Q, rdcc), al, la, Q
+    if ssr is None:
+        return [[Fraction(float(v)) for v in R[0]]], al, la, None
+    return [[Fraction(ssr), 1 - Fraction(ssr)]], al, la, None
+
+
+def targets_equal(S, A, Sf, Af, T, expT):
+    T = np.asarray(T, dtype=float)
+    L = len(S)
+    keep = slice(None, -1) if L > 1 else slice(None)
+    if T.shape != (len(expT), 2) or not (np.array_equal(Sf, S[keep]) and np.array_equal(Af, A[keep])):
+        return False
+    return all(Fraction(float(T[j, c_])) == expT[j][c_] for j in range(len(expT)) for c_ in (0, 1))
+
 
 
 def prepare(ctx):
@@ -136,6 +183,12 @@ def run(ctx):
             continue
         hist_calls, ok = [], True
         episodes = []
+        # hyper-parameter schedule (TD-FALCON, every other TD case): td_alpha / td_lambda re-assigned on the live model
+        sr = gen.rng_for(ctx.seed, "C16-sched", i)
+        scheduled = name == "TD_FALCON" and (i // 2) % 2 == 1
+        sched = []
+        if scheduled:
+            rep["td_schedule"] = sched
         # ------------------------------------------------ training history
         for e_i, L in enumerate(lens):
             S, A, R = trajectory(r, L, ds_, da)
@@ -152,9 +205,26 @@ def run(ctx):
                     cov.hit("falcon-fit" if use_fit else "falcon-partial_fit")
                 else:
                     ssr = r.choice([None, 0.25, 1.0]) if L == 1 else None
+                    rep.setdefault("episode_ssr", []).append(ssr)
                     trained = hasattr(est.fusion_art.modules[0], "W")
+                    if scheduled and sr.random() < 0.7:
+                        cov.hit("td-reassigned-before-episode:" + reassign_td(est, sr, f"episode {e_i}", sched))
+                    expT, al_e, la_e, Q_e = sarsa_expected(est, trained, S, A, R, ssr)
                     with quiet():
                         Sf, Af, T = est.calculate_SARSA(S, A, R, single_sample_reward=ssr)
+                    if not targets_equal(S, A, Sf, Af, T, expT):
+                        ctx.issue("violation", "TD_FALCON.partial_fit:episode-targets!=closed-formula"
+                                  + (":td-reassigned" if sched else ""),
+                                  f"episode {e_i}: calculate_SARSA targets {np.asarray(T).tolist()} expected "
+                                  f"{[[float(v) for v in row] for row in expT]} for the reported td_alpha {al_e}, td_lambda "
+                                  f"{la_e} (constructor {spec['td_alpha']}, {spec['td_lambda']}; trained {trained})", rep)
+                        ok = False
+                        break
+                    cov.hit("td-episode-targets==closed-formula" + ("-reassigned" if sched else ""))
+                    if sched and L > 1 and (al_e, la_e) != (spec["td_alpha"], spec["td_lambda"]):
+                        if sarsa_closed(spec["td_alpha"], spec["td_lambda"], Q_e, (R[:, 0] + (1 - R[:, 1])) / 2) != expT:
+                            cov.hit("td-reassignment-changes-episode-targets")
+                    with quiet():
                         est.partial_fit(S, A, R, single_sample_reward=ssr)
                         J = np.hstack([Sf, Af, T])
                         twin.partial_fit(J)
@@ -247,9 +317,13 @@ def run(ctx):
             L = r.choice([1, 1, 2, 2, 3, 5, 8, 13, 30]) if not ctx.thorough else r.randint(1, 30)
             S, A, R = trajectory(r, L, ds_, da)
             ssr = r.choice([None, 0.25, 0.75]) if (L == 1 and r.random() < 0.5) else None
-            al, la = spec["td_alpha"], spec["td_lambda"]
+            if scheduled and (not sched or sr.random() < 0.6):
+                cov.hit("td-reassigned-before-query:" + reassign_td(est, sr, "final calculate_SARSA", sched))
+            # alpha, lambda of the formula (and of the model line) = what the model reports now
+            al, la = float(est.td_alpha), float(est.td_lambda)
             rp = dict(rep, S=S, A=A, R=R, ssr=ssr)
-            cov.case((spec, [e_[0].tolist() for e_ in episodes], S.tolist(), A.tolist(), R.tolist(), ssr), L >= 2 and ncat >= 2)
+            cov.case((spec, [e_[0].tolist() for e_ in episodes], S.tolist(), A.tolist(), R.tolist(), ssr, sched),
+                     L >= 2 and ncat >= 2)
             try:
                 with quiet():
                     Sf, Af, T = est.calculate_SARSA(S, A, R, single_sample_reward=ssr)
@@ -277,9 +351,14 @@ def run(ctx):
                 val_ok = shape_ok and [Fraction(float(v)) for v in T[0]] == expT[0]
                 cov.hit("sarsa-single" + ("-ssr" if ssr is not None else ""))
             if not val_ok:
-                ctx.issue("violation", "TD_FALCON.calculate_SARSA:!=closed-formula",
+                ctx.issue("violation", "TD_FALCON.calculate_SARSA:!=closed-formula" + (":td-reassigned" if sched else ""),
                           f"targets {T.tolist()} expected {[[float(v) for v in row] for row in expT]} "
-                          f"(alpha {al}, lambda {la}, trained {trained})", rp)
+                          f"(reported alpha {al}, lambda {la}; constructor {spec['td_alpha']}, {spec['td_lambda']}; "
+                          f"trained {trained})", rp)
+            elif sched:
+                cov.hit("sarsa==closed-formula-for-reported-td-after-reassignment")
+                if L > 1 and sarsa_closed(spec["td_alpha"], spec["td_lambda"], Q, rdcc) != expT:
+                    cov.hit("td-reassignment-changes-query-targets")
             valid = T.size > 0 and bool(np.all(T >= 0) and np.all(T <= 1) and np.all(np.abs(T.sum(axis=1) - 1.0) <= 1e-12))
             try:
                 with quiet():
